@@ -360,7 +360,14 @@ func (s *Subscriber) OnSyncFinished() (<-chan SyncFinished, context.CancelFunc) 
 	cq := chanqueue.New[SyncFinished]()
 	ch := cq.In()
 	verifYield("l.preadd", "", cid.Undef)
-	s.addEventChan <- ch
+	select {
+	case s.addEventChan <- ch:
+	case <-s.distDone:
+		// The Subscriber is closed, so there will be no events. Return a
+		// closed channel instead of blocking.
+		close(ch)
+		return cq.Out(), func() {}
+	}
 	verifYield("l.added", "", cid.Undef)
 
 	cncl := func() {
